@@ -52,7 +52,9 @@ def vectors(ctx):
     for _ in range(ctx.pick(1500, 10000)):
         la1, la2 = rng.randrange(-90, 91), rng.randrange(-90, 91)
         lo1, lo2 = rng.randrange(-180, 181), rng.randrange(-180, 181)
-        V.append({"fn": "aero.distance", "la1": la1, "lo1": lo1, "la2": la2, "lo2": lo2, "case": ["dist", la1, lo1, la2, lo2]})
+        H = rng.choice([0, 0, 0, 1000, 11000, 20000])
+        V.append({"fn": "aero.distance", "la1": la1, "lo1": lo1, "la2": la2, "lo2": lo2, "H": H, "arr": rng.randrange(2),
+                  "case": ["dist", la1, lo1, la2, lo2, H]})
     for la, lo in ((0, 0), (90, 0), (-90, 0), (0, 180), (0, -180), (45, 45)):
         V.append({"fn": "aero.distance", "la1": la, "lo1": lo, "la2": la, "lo2": lo, "case": ["dist0", la, lo]})
         V.append({"fn": "aero.distance", "la1": la, "lo1": lo, "la2": -la, "lo2": lo - 180 if lo > 0 else lo + 180, "case": ["anti", la, lo]})
